@@ -388,8 +388,13 @@ class _PackedBoolArray:
                     raise ValueError("Can only set to bool or array of bools")
                 if len(value) != len(indices):
                     raise ValueError("Length mismatch")
-                self._set_bits_at_locs(indices[value])
-                self._clear_bits_at_locs(indices[~value])
+                if indices.min() < 0 or indices.max() >= self.size:
+                    raise IndexError("Location indices out of range.")
+                # With repeated indices the last value wins, as for numpy arrays.
+                _, last = np.unique(indices[::-1], return_index=True)
+                keep = len(indices) - 1 - last
+                self._set_bits_at_locs(indices[keep][value[keep]])
+                self._clear_bits_at_locs(indices[keep][~value[keep]])
             else:
                 raise ValueError("Can only set to bool or array of bools")
         else:
